@@ -1,5 +1,5 @@
 (* C01 — value-level model of "serialise a configuration, read the text back, parse it again":
-     adapt            adapt_typehints, serialising (ser = true) and deserialising branches
+     adapt            adapt_typehints, serialising (mode Ser skip_none) and deserialising (Des) branches
                       (jsonargparse/_typehints.py:731-934) over the type grammar `cty`
      check_type       ActionTypeHint._check_type for one value (_typehints.py:554-610)
      entry / trim     ArgumentParser.dump: _dump_cleanup_actions (None entries, per-action serialisation) and
@@ -21,7 +21,21 @@ Inductive cty :=
 | CDict (int_keys : bool) (t : cty)
 | CTuple (ts : list cty)
 | CTupleVar (t : cty)
-| CSet (t : cty).
+| CSet (t : cty)
+| CData (fields : list (str * cty * val)).   (* a dataclass used as a type hint VALUE: field name, type, default *)
+
+(* adapt_typehints runs deserialising, or serialising with the dump options of the enclosing dump (dump_kwargs
+   context: skip_none reaches the nested parser.dump of a dataclass-typed value) *)
+(* how far missing dataclass fields are given their defaults while deserialising:
+   FAll    = the sub_defaults context (ActionTypeHint.add_sub_defaults re-applies, after every parse, each top-level
+             value that is a str or a Namespace): every dataclass below is completed
+   FParser = parse_object(..., defaults=True) of this dataclass only (an item of List[Dataclass]: list_item)
+   FNo     = parse_object(..., defaults=False): missing fields stay missing (dataclass below a Dict / Tuple / Set / Union
+             item, which add_sub_defaults skips) *)
+Inductive fill := FNo | FParser | FAll.
+Inductive mode := Des (f : fill) | Ser (skip_none : bool).
+Definition is_ser (m : mode) : bool := match m with Des _ => false | Ser _ => true end.
+Definition sub_mode (m : mode) : mode := match m with Des FParser => Des FNo | _ => m end.   (* below a container / union *)
 
 (* ---- equalities ------------------------------------------------------------------------------------------------ *)
 Definition num_of (v : val) : option fl :=
@@ -143,6 +157,21 @@ Definition is_str (v : val) : bool := match v with VStr _ => true | _ => false e
 Definition is_cnone (t : cty) : bool := match t with CNone => true | _ => false end.
 Definition is_cstr (t : cty) : bool := match t with CStr => true | _ => false end.
 Definition is_seqmap (t : cty) : bool := match t with CList _ | CDict _ _ => true | _ => false end.
+Definition is_cdata (t : cty) : bool := match t with CData _ => true | _ => false end.
+(* the value of such a type is a Namespace at its top: add_sub_defaults re-applies it *)
+Definition is_dc_direct (t : cty) : bool := match t with CData _ => true | CUnion ts => existsb is_cdata ts | _ => false end.
+Definition field_mode (f : fill) (t1 : cty) : mode :=
+  match f with
+  | FAll => Des FAll
+  | FParser => if is_dc_direct t1 then Des FAll else Des FNo    (* the nested parser's own add_sub_defaults *)
+  | FNo => Des FNo
+  end.
+Definition item_mode (m : mode) (t1 : cty) : mode :=            (* List[T]: list_item=True reaches a dataclass T only *)
+  match m with
+  | Des FAll => m
+  | Des _ => if is_cdata t1 then Des FParser else Des FNo
+  | _ => m
+  end.
 
 (* sort_subtypes_for_union: stable sort by (x != NoneType[, origin not in sequence_or_mapping]) *)
 Definition union_key (val_is_str : bool) (t : cty) : nat :=
@@ -224,8 +253,55 @@ Definition key_to_int (k : val) : option val :=
 Definition lit_in (v : val) (ls : list val) : bool := existsb (val_eqb v) ls.
 Definition has_int_lit (ls : list val) : bool := existsb (fun l => match l with VInt _ => true | _ => false end) ls.
 
+(* ---- ActionTypeHint._check_type for one value --------------------------------------------------------------- *)
+Definition simple_scalar (v : val) : bool :=
+  match v with VInt _ | VFloat _ | VBool _ | VStr _ => true | _ => false end.
+
+(* parse_value_or_config (no path) + load_value(simple_types = False) *)
+Definition parse_value (v : val) : val :=
+  match v with
+  | VStr s =>
+      match strip s with
+      | [] => v
+      | [45%N] => v
+      | _ => match yl s with
+             | Some x => if simple_scalar x then v else x
+             | None => v
+             end
+      end
+  | _ => v
+  end.
+
+Definition valid_string (t : cty) (v : val) : bool :=
+  is_str v && match t with CStr => true | CUnion ts => existsb is_cstr ts | _ => false end.
+
+(* ActionTypeHint._check_type for one value, given the type's own adapt_typehints `ad` (orig_val, value).
+   dflt = the action's default: the retry with the original string passes it, and adapt_typehints returns a str /
+   bool / int / float that == the default unchanged *)
+Definition check_with (ad : option str -> val -> option val) (vstring : val -> bool) (dflt : val) (v0 : val) : option val :=
+  let orig := match v0 with VStr s => Some s | _ => None end in
+  let v := parse_value v0 in
+  let r := match ad orig v with
+           | Some w => Some w
+           | None => match orig with
+                     | Some o => if py_eq (VStr o) dflt then Some (VStr o) else ad orig (VStr o)
+                     | None => None
+                     end
+           end in
+  match r with
+  | Some w => Some w
+  | None => if vstring v then Some v else None
+  end.
+
+Fixpoint dict_get (k : val) (d : list (val * val)) : option val :=
+  match d with
+  | [] => None
+  | (k', x) :: d' => if py_eq k k' then Some x else dict_get k d'
+  end.
+
 (* ---- adapt_typehints -------------------------------------------------------------------------------------------- *)
-Fixpoint adapt (ser : bool) (orig : option str) (t : cty) (v : val) {struct t} : option val :=
+Fixpoint adapt (m : mode) (orig : option str) (t : cty) (v : val) {struct t} : option val :=
+  let ser := is_ser m in
   match t with
   | CStr => adapt_leaf KStr v
   | CInt => adapt_leaf KInt v
@@ -250,7 +326,7 @@ Fixpoint adapt (ser : bool) (orig : option str) (t : cty) (v : val) {struct t} :
   | CUnion ts =>
       adapt_union orig v
         ((fix go (ts : list cty) : list (cty * option val) :=
-            match ts with [] => [] | t1 :: ts' => (t1, adapt ser orig t1 v) :: go ts' end) ts)
+            match ts with [] => [] | t1 :: ts' => (t1, adapt (sub_mode m) orig t1 v) :: go ts' end) ts)
   | CTuple ts =>
       match seq_items v with
       | None => None
@@ -259,7 +335,7 @@ Fixpoint adapt (ser : bool) (orig : option str) (t : cty) (v : val) {struct t} :
           else
             match (fix go (ts : list cty) (l : list val) : option (list val) :=
                      match ts, l with
-                     | t1 :: ts', x :: l' => match adapt ser orig t1 x, go ts' l' with
+                     | t1 :: ts', x :: l' => match adapt (sub_mode m) orig t1 x, go ts' l' with
                                              | Some w, Some r => Some (w :: r)
                                              | _, _ => None
                                              end
@@ -272,7 +348,7 @@ Fixpoint adapt (ser : bool) (orig : option str) (t : cty) (v : val) {struct t} :
   | CTupleVar t1 =>
       match seq_items v with
       | None => None
-      | Some l => match map_opt (adapt ser orig t1) l with
+      | Some l => match map_opt (adapt (sub_mode m) orig t1) l with
                   | Some r => Some (if ser then VList r else VTuple r)
                   | None => None
                   end
@@ -280,14 +356,14 @@ Fixpoint adapt (ser : bool) (orig : option str) (t : cty) (v : val) {struct t} :
   | CSet t1 =>
       match seq_items v with
       | None => None
-      | Some l => match map_opt (adapt ser orig t1) l with
+      | Some l => match map_opt (adapt (sub_mode m) orig t1) l with
                   | Some r => Some (if ser then VList r else VSet (dedup r []))
                   | None => None
                   end
       end
   | CList t1 =>
       match seq_items v with
-      | Some l => match map_opt (adapt ser orig t1) l with
+      | Some l => match map_opt (adapt (item_mode m t1) orig t1) l with
                   | Some r => Some (VList r)
                   | None => None
                   end
@@ -307,7 +383,7 @@ Fixpoint adapt (ser : bool) (orig : option str) (t : cty) (v : val) {struct t} :
           match casted with
           | None => None
           | Some d' =>
-              match map_opt (fun kv => match adapt ser orig t1 (snd kv) with
+              match map_opt (fun kv => match adapt (sub_mode m) orig t1 (snd kv) with
                                        | Some w => Some (fst kv, w)
                                        | None => None
                                        end) d' with
@@ -317,46 +393,67 @@ Fixpoint adapt (ser : bool) (orig : option str) (t : cty) (v : val) {struct t} :
           end
       | _ => None
       end
-  end.
-
-(* ---- ActionTypeHint._check_type for one value --------------------------------------------------------------- *)
-Definition simple_scalar (v : val) : bool :=
-  match v with VInt _ | VFloat _ | VBool _ | VStr _ => true | _ => false end.
-
-(* parse_value_or_config (no path) + load_value(simple_types = False) *)
-Definition parse_value (v : val) : val :=
-  match v with
-  | VStr s =>
-      match strip s with
-      | [] => v
-      | [45%N] => v
-      | _ => match yl s with
-             | Some x => if simple_scalar x then v else x
-             | None => v
-             end
+  | CData fs =>
+      (* dataclass-like: serialising = load_value(parser.dump(val, **dump_kwargs)) with the nested parser (its own
+         _dump_cleanup_actions: None fields dropped under skip_none, each field serialised with its default; the nested
+         text is YAML and is read back at once — identity by C01_reload_identity); deserialising =
+         parser.parse_object(val): unknown keys rejected, present fields checked (None kept), missing ones defaulted *)
+      match v with
+      | VDict d =>
+          match m with
+          | Ser sn =>
+              match (fix go (fs : list (str * cty * val)) : option (list (val * val)) :=
+                       match fs with
+                       | [] => Some []
+                       | (n, t1, dflt) :: fs' =>
+                           match go fs' with
+                           | None => None
+                           | Some r =>
+                               match dict_get (VStr n) d with
+                               | None => Some r
+                               | Some VNone => Some (if sn then r else (VStr n, VNone) :: r)
+                               | Some x =>
+                                   match (if simple_scalar x && py_eq x dflt then Some x else adapt m None t1 x) with
+                                   | Some j => Some ((VStr n, j) :: r)
+                                   | None => None
+                                   end
+                               end
+                           end
+                       end) fs with
+              | Some r => Some (VDict r)
+              | None => None
+              end
+          | Des f =>
+              if forallb (fun kv => existsb (fun f => py_eq (fst kv) (VStr (fst (fst f)))) fs) d then
+                match (fix go (fs : list (str * cty * val)) : option (list (val * val)) :=
+                         match fs with
+                         | [] => Some []
+                         | (n, t1, dflt) :: fs' =>
+                             match go fs' with
+                             | None => None
+                             | Some r =>
+                                 match dict_get (VStr n) d with
+                                 | None => Some (match f with FNo => r | _ => (VStr n, dflt) :: r end)
+                                 | Some VNone => Some ((VStr n, VNone) :: r)
+                                 | Some x =>
+                                     match check_with (fun o y => adapt (field_mode f t1) o t1 y) (valid_string t1) dflt x with
+                                     | Some w => Some ((VStr n, w) :: r)
+                                     | None => None
+                                     end
+                                 end
+                             end
+                         end) fs with
+                | Some r => Some (VDict r)
+                | None => None
+                end
+              else None
+          end
+      | _ => None
       end
-  | _ => v
   end.
 
-Definition valid_string (t : cty) (v : val) : bool :=
-  is_str v && match t with CStr => true | CUnion ts => existsb is_cstr ts | _ => false end.
-
-(* dflt = the action's default: the retry with the original string passes it, and adapt_typehints returns a str /
-   bool / int / float that == the default unchanged *)
 Definition check_type (t : cty) (dflt : val) (v0 : val) : option val :=
-  let orig := match v0 with VStr s => Some s | _ => None end in
-  let v := parse_value v0 in
-  let r := match adapt false orig t v with
-           | Some w => Some w
-           | None => match orig with
-                     | Some o => if py_eq (VStr o) dflt then Some (VStr o) else adapt false orig t (VStr o)
-                     | None => None
-                     end
-           end in
-  match r with
-  | Some w => Some w
-  | None => if valid_string t v then Some v else None
-  end.
+  check_with (fun o y => adapt (Des (if is_dc_direct t then FAll else FNo)) o t y) (valid_string t) dflt v0.
 
 (* a value found under a key of a configuration source (file, string, object): None is kept as it is *)
 Definition check_entry (t : cty) (dflt : val) (v : val) : option val :=
@@ -374,44 +471,21 @@ Inductive entry := EErr | EAbsent | EPresent (j : val).
    skip_validation=True: a failing serialisation leaves the raw default) *)
 (* ActionTypeHint.serialize passes default=self.default: a str / bool / int / float that == the default is
    returned as it is (first line of adapt_typehints; not propagated to nested calls) *)
-Definition ser_leaf (t : cty) (dflt : val) (v : val) : option val :=
-  if simple_scalar v && py_eq v dflt then Some v else adapt true None t v.
+Definition ser_leaf (skip_none : bool) (t : cty) (dflt : val) (v : val) : option val :=
+  if simple_scalar v && py_eq v dflt then Some v else adapt (Ser skip_none) None t v.
 
 Definition cleanup (strict skip_none : bool) (t : cty) (dflt : val) (v : val) : entry :=
   match v with
   | VNone => if skip_none then EAbsent else EPresent VNone
-  | _ => match ser_leaf t dflt v with
+  | _ => match ser_leaf skip_none t dflt v with
          | Some j => EPresent j
          | None => if strict then EErr else EPresent v
          end
   end.
 
-Fixpoint dict_get (k : val) (d : list (val * val)) : option val :=
-  match d with
-  | [] => None
-  | (k', x) :: d' => if py_eq k k' then Some x else dict_get k d'
-  end.
-
-(* _dump_delete_default_entries below one key: the recursion does not know where the declared leaves end,
-   so it continues into dict VALUES *)
-Fixpoint trim_rec (j dj : val) {struct j} : val :=
-  match j, dj with
-  | VDict a, VDict b =>
-      VDict ((fix go (a : list (val * val)) : list (val * val) :=
-                match a with
-                | [] => []
-                | (k, x) :: a' =>
-                    match dict_get k b with
-                    | Some y => if py_eq x y then go a' else (k, trim_rec x y) :: go a'
-                    | None => (k, x) :: go a'
-                    end
-                end) a)
-  | _, _ => j
-  end.
-
-Definition trim (j dj : val) : option val :=          (* None = the entry is deleted *)
-  if py_eq j dj then None
-  else let j' := trim_rec j dj in if val_eqb j' j then Some j else Some j'.
+(* _dump_delete_default_entries below one declared key (since /repo d576475 a dict VALUE is kept or dropped whole):
+   None = the entry is deleted *)
+Definition trim (j dj : val) : option val := if py_eq j dj then None else Some j.
 
 Definition dump_entry (vr : variant) (lf : leaf) (w : val) : entry :=
   match cleanup true (vr_skip_none vr) (lf_ty lf) (lf_def lf) w with
